@@ -283,7 +283,7 @@ func runnerMain() int {
 						mu.Lock()
 						trouble = append(trouble, fmt.Sprintf("watchdog in %s run %d: %s", ck.scenario, idx, firstLines(cr.stderr[max(0, strings.Index(cr.stderr, "WATCHDOG")):], 40)))
 						mu.Unlock()
-					case ok && (msg != "" || frame != ""):
+					case ok && frame != "":
 						// a library goroutine panicked: confirm by re-running that seed alone
 						cr2 := runChunk(spec.Property, base, chunk{ck.scenario, idx, 1}, spec.Race)
 						os.Remove(cr2.outFile)
@@ -482,7 +482,9 @@ func (a *agg) add(rr *RunResult) {
 	for _, v := range rr.Violations {
 		k := v.Key()
 		a.violCount[k]++
-		if _, ok := a.viol[k]; !ok && rr.Replay != nil {
+		if prev, ok := a.viol[k]; rr.Replay != nil && (!ok || rr.Scenario < prev.Scenario || (rr.Scenario == prev.Scenario && rr.Index < prev.Index)) {
+			// keep the violating run with the lowest index, so that the
+			// reported replay does not depend on worker completion order
 			a.viol[k] = rr
 		}
 	}
